@@ -191,7 +191,7 @@ def tlc(module_path, cfg=None, env=None, workers=4, timeout=600, simulate=None, 
     meta = os.path.join(WORK, "tlc", tag)
     shutil.rmtree(meta, ignore_errors=True)
     os.makedirs(meta, exist_ok=True)
-    jopts = "-Xss1g"
+    jopts = "-Xss1g -DTLA-Library=" + ":".join(sorted(os.path.join(SPEC, d) for d in os.listdir(SPEC) if os.path.isdir(os.path.join(SPEC, d))))
     if deque:
         jopts += " -Dtlc2.tool.queue.IStateQueue=StateDeque"
     e = dict(os.environ)
